@@ -184,7 +184,7 @@ def c12(tier, seed):
     ms = []
     depth = 4 if tier == "quick" else 5
     ms.append(model("thr-dyadic", ["S1", "H2"], ["quote", "rebal"], depth, fees="free", bids=(8,), spreads=(0, 8),
-                    reqs=reqs_d, maxrebal=3, invariants=inv, properties=props, dyadic=True))
+                    reqs=reqs_d, maxrebal=3 if tier == "quick" else 2, invariants=inv, properties=props, dyadic=True))
     ms.append(model("lots", ["S1", "H2"], ["quote", "trade", "rebal"], depth, fees="dy", bids=(8, 12), spreads=(0, 4),
                     dqs=(-1, 2), reqs=reqs_l, maxrebal=3 if tier == "quick" else 2, invariants=inv, properties=props))
     # a fractional position left by fractional trading, then whole-lot liquidations: 5/2 -> sell 2 -> 1/2 left, which a
@@ -200,7 +200,7 @@ def c12(tier, seed):
     ms.append(model("relative", ["S1", "H2"], ["quote", "rebal"], depth, fees="dy", bids=(8,), spreads=(0, 8), reqs=reqs_r,
                     maxrebal=2, invariants=inv, properties=props))
     if tier != "quick":
-        ms.append(model("thr-f4", ["S2", "F4"], ["quote", "trade", "rebal"], 5, fees="dy", bids=(8, 12), spreads=(0, 4),
+        ms.append(model("thr-f4", ["S2", "F4"], ["quote", "trade", "rebal"], 5, fees="free", bids=(8, 12), spreads=(0, 4),
                         dqs=(-1, 2),
                         reqs=[req({"S2": F(1, 2), "F4": F(1, 8)}, thr=t8), req({"F4": F(1, 16)}, thr=t16),
                               req({"S2": F(-1, 4)}, thr=t8, fractional=False), req({"F4": F(1)}, thr=t16)],
